@@ -227,10 +227,10 @@ theorem startShutRow_mem (r : CHPRP) {t : Nat} (ht : t + 1 < r.core.T) : r.start
   simp only [CHPRP.startShutRows, List.mem_append, List.mem_map, List.mem_range]
   exact Or.inl (Or.inl ⟨t, by omega, rfl⟩)
 
-theorem overlapRow_mem (r : CHPRP) {t : Nat} (ht : t + 1 < r.core.T) : r.overlapRow t ∈ r.rows := by
+theorem overlapRow_mem (r : CHPRP) {t : Nat} (ht : t < r.core.T) : r.overlapRow t ∈ r.rows := by
   apply startShutRows_mem
   simp only [CHPRP.startShutRows, List.mem_append, List.mem_map, List.mem_range]
-  exact Or.inr ⟨t, by omega, rfl⟩
+  exact Or.inr ⟨t, ht, rfl⟩
 
 theorem firstRow_mem (r : CHPRP) : (if r.core.tar = 0 then r.core.startFirstRow else r.firstRunningRow) ∈ r.rows := by
   apply startShutRows_mem
@@ -265,12 +265,13 @@ theorem first_flag_running (r : CHPRP) (x : Vec) (hx : (assembleCHPP r).Feasible
   rw [if_neg h0] at h
   exact (firstRunningRow_sat r x).mp (sat_of_memP hx h)
 
-theorem no_overlap (r : CHPRP) (x : Vec) (hx : (assembleCHPP r).FeasibleRelaxed x) (t : Nat) (ht : t + 1 < r.core.T) :
+theorem no_overlap (r : CHPRP) (x : Vec) (hx : (assembleCHPP r).FeasibleRelaxed x) (t : Nat) (ht : t < r.core.T) :
     x (r.core.layout.start t) + x (r.shut t) ≤ 1 :=
   (overlapRow_sat r x t).mp (sat_of_memP hx (overlapRow_mem r ht))
 
-/-- with 0/1 values a start is flagged EXACTLY at off→on transitions (for steps that have an overlap row) -/
-theorem start_exact (r : CHPRP) (x : Vec) (hx : (assembleCHPP r).FeasibleRelaxed x) (t : Nat) (ht : t + 2 < r.core.T)
+/-- with 0/1 values a start is flagged EXACTLY at off→on transitions (every step `t + 1 < T`, the last one included:
+    since the repair e7aae05 every step has an overlap row) -/
+theorem start_exact (r : CHPRP) (x : Vec) (hx : (assembleCHPP r).FeasibleRelaxed x) (t : Nat) (ht : t + 1 < r.core.T)
     (ho : x (r.core.layout.on t) = 0 ∨ x (r.core.layout.on t) = 1)
     (ho' : x (r.core.layout.on (t + 1)) = 0 ∨ x (r.core.layout.on (t + 1)) = 1)
     (hs : x (r.core.layout.start (t + 1)) = 0 ∨ x (r.core.layout.start (t + 1)) = 1)
@@ -281,8 +282,8 @@ theorem start_exact (r : CHPRP) (x : Vec) (hx : (assembleCHPP r).FeasibleRelaxed
   rcases ho with ho | ho <;> rcases ho' with ho' | ho' <;> rcases hs with hs | hs <;> rcases hq with hq | hq <;>
     rw [ho, ho', hs, hq] at he <;> rw [hs, hq] at hov <;> simp only [ho, ho', hs] <;> grind
 
-/-- with 0/1 values a shutdown is flagged EXACTLY at on→off transitions (for steps that have an overlap row) -/
-theorem shutdown_exact (r : CHPRP) (x : Vec) (hx : (assembleCHPP r).FeasibleRelaxed x) (t : Nat) (ht : t + 2 < r.core.T)
+/-- with 0/1 values a shutdown is flagged EXACTLY at on→off transitions (every step `t + 1 < T`, the last one included) -/
+theorem shutdown_exact (r : CHPRP) (x : Vec) (hx : (assembleCHPP r).FeasibleRelaxed x) (t : Nat) (ht : t + 1 < r.core.T)
     (ho : x (r.core.layout.on t) = 0 ∨ x (r.core.layout.on t) = 1)
     (ho' : x (r.core.layout.on (t + 1)) = 0 ∨ x (r.core.layout.on (t + 1)) = 1)
     (hs : x (r.core.layout.start (t + 1)) = 0 ∨ x (r.core.layout.start (t + 1)) = 1)
@@ -294,7 +295,8 @@ theorem shutdown_exact (r : CHPRP) (x : Vec) (hx : (assembleCHPP r).FeasibleRela
     rw [ho, ho', hs, hq] at he <;> rw [hs, hq] at hov <;> simp only [ho, ho', hq] <;> grind
 
 
-/-! ### the overlap rows stop one step early: at the LAST step start and shutdown flag may both be 1 -/
+/-! ### the overlap rows cover EVERY step (repaired in /repo, commit e7aae05; before, they stopped one step early and at
+the LAST step start and shutdown flag could both be 1: former observation P-2 / finding of pkg-c06prof) -/
 
 /-- `Plant(min 3, max 10, start_ramp_lower_bounds [1], start_ramp_upper_bounds [2])`, two steps, was off -/
 def witnessLast : CHPRP :=
@@ -307,14 +309,13 @@ def witnessLast : CHPRP :=
         fuelEff := [], consIfOn := [], startFuel := [] },
     prof := { sl := [1], su := [2], ql := [], qu := [], slh := none, suh := none, qlh := none, quh := none } }
 
-/-- on `11`, start `11`, shutdown `01`: at the last step (no overlap row) a start AND a shutdown are flagged while
-    the unit simply stays on — and the step is bounded by the start profile `[1, 2]` instead of `[3, 10]` -/
-theorem last_step_flags_not_exclusive :
-    ∃ x : Vec, (assembleCHPP witnessLast).FeasibleRelaxed x ∧
-      x (witnessLast.core.layout.on 0) = 1 ∧ x (witnessLast.core.layout.on 1) = 1 ∧
-      x (witnessLast.core.layout.start 1) = 1 ∧ x (witnessLast.shut 1) = 1 ∧ witnessLast.core.vd x 1 = 1 := by
-  refine ⟨fun j => [1, 1, 1, 1, 1, 1, 0, 1].getD j 0, ?_, by decide +kernel, by decide +kernel, by decide +kernel,
-    by decide +kernel, by decide +kernel⟩
+/-- the former witness — on `11`, start `11`, shutdown `01`, dispatch `1, 1`: at the last step a start AND a shutdown
+    flagged while the unit stays on, the step bounded by the start profile `[1, 2]` instead of `[3, 10]` — is now
+    REJECTED by the generated problem; the same point with exact flags at the last step (start `10`, shutdown `00`) and a
+    dispatch of at least `min_cap` there is feasible -/
+theorem last_step_witness_now_rejected :
+    ¬ (assembleCHPP witnessLast).FeasibleRelaxed (fun j => [1, 1, 1, 1, 1, 1, 0, 1].getD j 0) ∧
+    (assembleCHPP witnessLast).FeasibleRelaxed (fun j => [1, 3, 1, 1, 1, 0, 0, 0].getD j 0) := by
   unfold AssetProblem.FeasibleRelaxed InBounds
   decide +kernel
 
@@ -720,7 +721,7 @@ end EAO.CHPProfile
 'EAO.CHPProfile.no_overlap' depends on axioms: [propext, Classical.choice, Quot.sound]
 'EAO.CHPProfile.start_exact' depends on axioms: [propext, Classical.choice, Quot.sound]
 'EAO.CHPProfile.shutdown_exact' depends on axioms: [propext, Classical.choice, Quot.sound]
-'EAO.CHPProfile.last_step_flags_not_exclusive' depends on axioms: [propext, Classical.choice, Quot.sound]
+'EAO.CHPProfile.last_step_witness_now_rejected' depends on axioms: [propext, Classical.choice, Quot.sound]
 'EAO.CHPProfile.profile_precedence_witness' depends on axioms: [propext, Classical.choice, Quot.sound]
 'EAO.CHPProfile.witnessShut_feasible' depends on axioms: [propext, Classical.choice, Quot.sound]
 'EAO.CHPProfile.assembleCHPP_step' depends on axioms: [propext, Classical.choice, Quot.sound]
